@@ -136,6 +136,16 @@ pub struct Rec {
     /// the statement leaves open whether this diagnostic is due (it may or may not appear)
     #[serde(default)]
     pub optional: bool,
+    /// alternative location that also satisfies the statement ("on that element": its name
+    /// range or its whole extent)
+    #[serde(default)]
+    pub alt: Option<Loc>,
+}
+
+impl Rec {
+    pub fn admits(&self, s: usize, e: usize) -> bool {
+        self.anchor.admits(s, e) || self.alt.map(|a| a.admits(s, e)).unwrap_or(false)
+    }
 }
 
 #[derive(Clone, Debug, Serialize, Deserialize)]
@@ -259,6 +269,21 @@ impl<'a> Ctx<'a> {
             anchor,
             related,
             optional: false,
+            alt: None,
+        });
+    }
+
+    /// record located on an element type: its name range, or alternatively its whole extent
+    fn rec_on_type(&mut self, class: &str, sev: Sev, t: &Ty) {
+        let s = tspan(self.r, t.sym);
+        let f = tspan(self.r, t.full);
+        self.out.recs.push(Rec {
+            class: class.to_string(),
+            sev,
+            anchor: Loc::exact(s.0, s.1),
+            related: Some(vec![]),
+            optional: false,
+            alt: if f != s { Some(Loc::exact(f.0, f.1)) } else { None },
         });
     }
 
@@ -300,9 +325,9 @@ impl<'a> Ctx<'a> {
                 let es = tspan(self.r, e.sym);
                 let c = category(e, self.doc, self.facts);
                 match c {
-                    Cat::Array => self.rec("multi-dim-array", Sev::Error, Loc::exact(es.0, es.1), Some(vec![])),
+                    Cat::Array => self.rec_on_type("multi-dim-array", Sev::Error, e),
                     Cat::List | Cat::Map | Cat::Void | Cat::CharSeq | Cat::Interface | Cat::ParcelableHolder => {
-                        self.rec("bad-array-element", Sev::Error, Loc::exact(es.0, es.1), Some(vec![]))
+                        self.rec_on_type("bad-array-element", Sev::Error, e)
                     }
                     Cat::Ambiguous => self.out.dont_care.push(es),
                     _ => {}
@@ -314,7 +339,7 @@ impl<'a> Ctx<'a> {
                 match c {
                     Cat::Str | Cat::Parcelable | Cat::Fwd | Cat::UnknownImport | Cat::IBinder | Cat::Pfd | Cat::Unresolved => {}
                     Cat::Ambiguous => self.out.dont_care.push(es),
-                    _ => self.rec("bad-list-element", Sev::Error, Loc::exact(es.0, es.1), Some(vec![])),
+                    _ => self.rec_on_type("bad-list-element", Sev::Error, e),
                 }
             }
             TyKind::List(None) => {
@@ -331,13 +356,11 @@ impl<'a> Ctx<'a> {
                     // the statement both says keys must be String and that unresolved names get
                     // the benefit of the doubt
                     Cat::Unresolved | Cat::Ambiguous => self.out.dont_care.push(ks),
-                    _ => self.rec("bad-map-key", Sev::Error, Loc::exact(ks.0, ks.1), Some(vec![])),
+                    _ => self.rec_on_type("bad-map-key", Sev::Error, k),
                 }
                 let vs = tspan(self.r, v.sym);
                 match category(v, self.doc, self.facts) {
-                    Cat::Primitive | Cat::Void | Cat::Enum => {
-                        self.rec("bad-map-value", Sev::Error, Loc::exact(vs.0, vs.1), Some(vec![]))
-                    }
+                    Cat::Primitive | Cat::Void | Cat::Enum => self.rec_on_type("bad-map-value", Sev::Error, v),
                     Cat::Ambiguous => self.out.dont_care.push(vs),
                     _ => {}
                 }
@@ -492,8 +515,7 @@ pub fn expect_file(doc: &Document, r: &Rendered, facts: &ProjectFacts) -> FileEx
                     cx.rec("redundant-oneway", Sev::Warning, Loc::exact(s.0, s.1), None);
                 }
                 if ow && !matches!(mm.ret.kind, TyKind::Void) {
-                    let s = tspan(r, mm.ret.sym);
-                    cx.rec("oneway-must-return-void", Sev::Error, Loc::exact(s.0, s.1), Some(vec![]));
+                    cx.rec_on_type("oneway-must-return-void", Sev::Error, &mm.ret);
                 }
                 cx.args(mm, ow);
             }
@@ -509,13 +531,13 @@ pub fn expect_file(doc: &Document, r: &Rendered, facts: &ProjectFacts) -> FileEx
         let mut firsts: Vec<&Method> = Vec::new();
         for m in &methods {
             if let Some((_, f)) = names.iter().find(|(n, _)| *n == m.name) {
-                let s = (r.start(m.name_tok), r.end(m.name_tok));
-                let fs = (r.start(f.name_tok), r.end(f.name_tok));
+                // "flagged with one Error that points back to the first occurrence": located
+                // anywhere on the repeating method, related anywhere on the first one
                 cx.rec(
                     "duplicate-method-name",
                     Sev::Error,
-                    Loc::exact(s.0, s.1),
-                    Some(vec![Loc::exact(fs.0, fs.1)]),
+                    Loc::within(r.start(m.first_tok), r.end(m.semi_tok)),
+                    Some(vec![Loc::within(r.start(f.first_tok), r.end(f.semi_tok))]),
                 );
             } else {
                 names.push((&m.name, m));
@@ -527,13 +549,11 @@ pub fn expect_file(doc: &Document, r: &Rendered, facts: &ProjectFacts) -> FileEx
         for m in &firsts {
             if let Some(c) = code_of(m) {
                 if let Some((_, f)) = codes.iter().find(|(k, _)| *k == c) {
-                    let s = tspan(r, m.code_span);
-                    let fs = tspan(r, f.code_span);
                     cx.rec(
                         "duplicate-transact-code",
                         Sev::Error,
-                        Loc::exact(s.0, s.1),
-                        Some(vec![Loc::exact(fs.0, fs.1)]),
+                        Loc::within(r.start(m.first_tok), r.end(m.semi_tok)),
+                        Some(vec![Loc::within(r.start(f.first_tok), r.end(f.semi_tok))]),
                     );
                 } else {
                     codes.push((c, m));
@@ -561,6 +581,7 @@ pub fn expect_file(doc: &Document, r: &Rendered, facts: &ProjectFacts) -> FileEx
                     anchor: Loc::within(r.start(m.first_tok), r.end(m.semi_tok)),
                     related: None,
                     optional: !same,
+                    alt: None,
                 });
             }
         }
